@@ -66,7 +66,7 @@ Definition modelled (c : case) : bool :=
 
 Theorem bridge c : modelled c = true -> wf_case c = true -> run_case c = true -> prop_case c = true.
 Proof.
-  destruct c as [tag t coins parts txid auth shsig sigs | f t t' coins coins' o o' | | | |]; try discriminate; intros _ W R.
+  destruct c as [tag t coins parts txid auth shsig sigs | f t t' coins coins' o o' | | | | | | |]; try discriminate; intros _ W R.
   - cbn [run_case prop_case] in *. apply andb_true_iff in R. destruct R as [_ R]. exact R.
   - destruct o as [txid auth shsig sigs], o' as [txid' auth' shsig' sigs'].
     cbn [wf_case run_case prop_case] in *. unfold wf_obs in W. bsplit.
